@@ -61,11 +61,14 @@ theorem regress_F13a :
 /-! ### (M) most specific, as far as the non-backtracking lookup guarantees it -/
 
 /-- (M) Outside F13c: the applied policy's pattern `p` is at least as specific (`specLE`:
-    literal > parameter > wildcard, position-wise, lexicographic) as EVERY declared pattern `q` that matches
-    the request — except when `passedOver p q`: `p` ends in `*` and `q` follows the same trie path up to that
-    `*` and continues with a literal/parameter there.  That exception is precisely the lookup's lack of
-    backtracking (after entering a literal/parameter child it can only fall back to the deepest `*` seen);
-    it never arises when the applied pattern does not end in `*`. -/
+    literal > parameter > wildcard, position-wise, lexicographic; a trailing `*` matches any remainder
+    INCLUDING none) as EVERY declared pattern `q` that matches the request — except when `q` was passed over
+    BECAUSE it is shadowed: `passedOver p q` (`p` ends in `*`, `q` follows the same trie path up to that `*` and
+    continues there) AND `shadowed … q u` (further down `q` has a parameter where a third declared pattern has
+    the literal equal to the request's segment).  That exception is precisely the lookup's lack of backtracking
+    (it takes the literal child, never comes back, and can only fall back to the deepest `*` seen); a matching
+    pattern that is NOT shadowed always beats a shallower `*` — in particular the deeper of two nested
+    wildcards wins on its own base URL. -/
 theorem most_specific_partial (es : List Endpoint) (g : Globals) (pt : PTree) (m : String) (u : List Part)
     (hbuild : build es = .ok pt) (hF13c : boundaryMix es u = false) :
     mostSpecificOk es m u (observe pt g m u) = true := by
@@ -113,7 +116,22 @@ theorem no_backtracking_witness :
 theorem passed_over_witness :
     appliedRemedies [epXY, epPZ, epWildAll] "GET" urlXZ = some ["C"] ∧
     «matches» epPZ.parts urlXZ = true ∧ specLE epPZ.parts epWildAll.parts = false ∧
-    passedOver epWildAll.parts epPZ.parts = true := by
+    passedOver epWildAll.parts epPZ.parts = true ∧
+    shadowed ([epXY, epPZ, epWildAll].map (·.parts)) epPZ.parts urlXZ = true := by
+  decide
+
+def epV1Wild : Endpoint :=
+  ⟨"GET", "a.com/v1/*", [⟨true, .lit "a"⟩, ⟨true, .lit "com"⟩, ⟨false, .lit "v1"⟩, ⟨false, .wild⟩], [⟨"D", 4, true⟩], []⟩
+def urlV1 : List Part := [⟨true, .lit "a"⟩, ⟨true, .lit "com"⟩, ⟨false, .lit "v1"⟩]
+
+/-- Nested wildcards: on its own base URL `a.com/v1` the deeper `a.com/v1/*` (zero segments under the `*`)
+    wins over `a.com/*`, in both declaration orders; it is passed-over-shaped but NOT shadowed, so (M) does
+    not excuse the shallower wildcard (seeded change C13-s9). -/
+theorem nested_wildcard_base :
+    appliedRemedies [epWildAll, epV1Wild] "GET" urlV1 = some ["D"] ∧
+    appliedRemedies [epV1Wild, epWildAll] "GET" urlV1 = some ["D"] ∧
+    «matches» epV1Wild.parts urlV1 = true ∧ passedOver epWildAll.parts epV1Wild.parts = true ∧
+    shadowed ([epWildAll, epV1Wild].map (·.parts)) epV1Wild.parts urlV1 = false := by
   decide
 
 /-- non-vacuity of (S)/(M): two declared patterns match `api.com/users/me`, the literal one is applied. -/
